@@ -14,6 +14,10 @@ main_log = {}
 for ln in git('log', '--format=%H\t%s', 'main').splitlines():
     h, s = ln.split('\t', 1)
     main_log.setdefault(s, h)
+try:
+    previous = {f['id']: f for f in json.load(open('/verif/known_findings.json'))['findings']}
+except Exception:
+    previous = {}
 out = []
 for p in sorted(glob.glob('/verif/findings.d/*.json')):
     j = json.load(open(p))
@@ -24,7 +28,11 @@ for p in sorted(glob.glob('/verif/findings.d/*.json')):
         if f.get('status') == 'fixed' and c:
             subj = git('log', '-1', '--format=%s', c).strip()
             mh = main_log.get(subj)
-            if not mh:
+            if not mh and f['id'] in previous and previous[f['id']].get('branch_commit') == c:
+                # the builder branch is gone (fresh sandbox): keep the mapping recorded when it was integrated
+                f['branch_commit'] = c
+                f['commit'] = previous[f['id']]['commit']
+            elif not mh:
                 print('WARNING: no main commit for', f['id'], c, subj)
             else:
                 f['branch_commit'] = c
